@@ -116,6 +116,7 @@ class Runner:
         for d in (self.sbx, self.phome, self.mhome, self.outside):
             os.makedirs(d)
         self.mp = impl.main_program(self.sbx)
+        self._text_cache = {}
         from exactly_lib.processing import exit_values as ev
         self.codes = {ev.EXECUTION__PASS.exit_code: 'PASS', ev.EXECUTION__FAIL.exit_code: 'FAIL',
                       ev.EXECUTION__HARD_ERROR.exit_code: 'HARD_ERROR',
@@ -314,6 +315,22 @@ class Runner:
         tgt = {'dangling': 'None', 'homefile': '(Some (File %s))' % ctext('LF'),
                'homedir': '(Some (Dir [(%s, File %s)]))' % (ctext('inner'), ctext('in'))}[kind]
         return '(ISymlink %s %s)' % (cpath(comps), tgt)
+
+    # ---- oracle for opaque TEXT-MATCHERs: the `contents` instruction on a file with the given contents ----
+    def text_oracle(self, k, txt):
+        """True / False, or None for HARD_ERROR"""
+        key = (k, txt)
+        if key not in self._text_cache:
+            d = os.path.join(self.mhome, 'text-oracle')
+            os.makedirs(d, exist_ok=True)
+            with open(os.path.join(d, 'f'), 'w') as f:
+                f.write(txt)
+            r = self.run_case(self.mhome, '[assert]\n\ncontents -rel-home text-oracle/f : ( %s )\n' % TM_OPAQUE[k], keep=False)
+            st = self.status_of(r)
+            if st not in ('PASS', 'FAIL', 'HARD_ERROR'):
+                raise RuntimeError('text oracle: %r on %r gave %s: %s' % (TM_OPAQUE[k], txt, st, r.err[-300:]))
+            self._text_cache[key] = {'PASS': True, 'FAIL': False, 'HARD_ERROR': None}[st]
+        return self._text_cache[key]
 
     # ---- matcher case ----
     def run_matcher(self, root_name, m, form):
@@ -608,6 +625,15 @@ CORPUS_FORBIDDEN = [
 NODE_NAMES = ['a', 'b', 'c', 'a.txt', 'b.tar.gz', '.x', 'c.', 'sub', 'd1', 'e.txt', '.hidden', 'f.', 'a..b', '..c', 'x.y.', '...', '.x.y']
 DOT_NAMES = ['.hidden', 'f.', 'a..b', '..c', 'x.y.', '...', '.x.y', '.x', 'c.', 'b.tar.gz']
 STR_PATS = ['*', 'a*', '*.txt', '?', '*.*', '[ab]*', '.*', 'sub', '*b*', '.', '', '?*', '.?*', '*.', '.[!.]*']
+RE_STR_PATS = ['^a', r'\.txt$', '^$', r'^\.', r'\.$', 'b', r'^[^.]*$', r'\..*\.', r'^\.[a-z]+$']          # name|stem|.. ~ REGEX
+RE_PATH_PATS = ['/sub/', r'\.txt$', '/a$', r'T[0-9]+/[^/]*$', r'/d1/.*x', r'/\.[^/]*$']             # path ~ REGEX
+# TEXT-MATCHERs the model treats as opaque: the verdict on a text comes from the `contents` INSTRUCTION
+TM_OPAQUE = ["num-lines == 1", "num-lines >= 1", "matches 'l'", "matches -full 'x'", "any line : contents matches 'e'",
+             "every line : contents matches '^y'", "-transformed-by char-case -to-upper equals 'X'",
+             "-transformed-by filter contents matches 'h' num-lines == 1", "! matches 'y'"]
+# PROGRAMs of the `run` matcher: the path is the last argument, exit code 0 = match
+RUN_PROGS = [('% test -d', ['test', '-d']), ('% test -f', ['test', '-f']), ('% test -L', ['test', '-L']),
+             ('% test -s', ['test', '-s']), ('% test -e', ['test', '-e'])]
 PATH_PATS = ['*', '*/a', 'sub/*', '*/*/*', '*.txt', 'T*/*', '*/d1/*', 'a']
 CMPS = [('==', 'CEq'), ('!=', 'CNe'), ('<', 'CLt'), ('<=', 'CLe'), ('>', 'CGt'), ('>=', 'CGe')]
 PARTS = [('name', 'PName'), ('stem', 'PStem'), ('suffixes', 'PSuffixes'), ('suffix', 'PSuffix')]
@@ -700,11 +726,13 @@ def traversal_paths(base, max_len=9):
 
 
 def gen_tm(rng):
-    r = rng.below(10)
-    if r < 4:
+    r = rng.below(12)
+    if r < 3:
         return ('empty',)
-    if r < 8:
+    if r < 6:
         return ('eq', rng.choice(CONTENTS))
+    if r < 10:
+        return ('opaque', rng.below(len(TM_OPAQUE)))
     return ('not', gen_tm(rng))
 
 
@@ -727,10 +755,16 @@ def gen_fm(rng, depth, rels, safe):
             return ('const', rng.chance(0.5))
         if q < 45:
             return ('type', rng.below(3))
-        if q < 70:
+        if q < 60:
             return ('name', rng.weighted([(0, 2), (1, 3), (2, 3), (3, 5)]), rng.below(len(STR_PATS)))
-        if q < 80:
+        if q < 68:
+            return ('namere', rng.weighted([(0, 2), (1, 3), (2, 3), (3, 5)]), rng.below(len(RE_STR_PATS)))
+        if q < 73:
             return ('path', rng.below(len(PATH_PATS)))
+        if q < 77:
+            return ('pathre', rng.below(len(RE_PATH_PATS)))
+        if q < 80:
+            return ('run', rng.below(len(RUN_PROGS)))
         if safe:
             return ('type', rng.below(3))
         if q < 90 or depth <= 0:
@@ -804,6 +838,8 @@ def tm_src(m, simple):
         return 'is-empty'
     if m[0] == 'eq':
         return "equals '%s'" % m[1]
+    if m[0] == 'opaque':
+        return '( ' + TM_OPAQUE[m[1]] + ' )'
     s = '! ' + tm_src(m[1], True)
     return '( %s )' % s if simple else s
 
@@ -829,6 +865,12 @@ def fm_src(m, simple):
         return "%s '%s'" % (PARTS[m[1]][0], STR_PATS[m[2]])
     if k == 'path':
         return "path '%s'" % PATH_PATS[m[1]]
+    if k == 'namere':
+        return "%s ~ '%s'" % (PARTS[m[1]][0], RE_STR_PATS[m[2]])
+    if k == 'pathre':
+        return "path ~ '%s'" % RE_PATH_PATS[m[1]]
+    if k == 'run':
+        return 'run ' + RUN_PROGS[m[1]][0] + '\n'       # the arguments of a PROGRAM extend to the end of the line
     if k == 'contents':
         return 'contents ' + tm_src(m[1], True)
     if k == 'dirc':
@@ -845,7 +887,7 @@ def fc_src(fc):
         return '{ }'
     lines = []
     for nm, fm in fc:
-        lines.append('  ' + (nm if nm else "''") + ('' if fm is None else ' : ' + fm_src(fm, True)))
+        lines.append('  ' + (nm if nm else "''") + ('' if fm is None else ' : ' + fm_src(fm, True).rstrip('\n')))
     return '{\n' + '\n'.join(lines) + '\n}'
 
 
@@ -880,6 +922,8 @@ def tm_term(m):
         return 'TEmpty'
     if m[0] == 'eq':
         return '(TEquals %s)' % ctext(m[1])
+    if m[0] == 'opaque':
+        return '(TOpaque %s)' % cnat(m[1])
     return '(TNot %s)' % tm_term(m[1])
 
 
@@ -899,6 +943,12 @@ def fm_term(m):
         return '(FName %s %s)' % (PARTS[m[1]][1], cnat(m[2]))
     if k == 'path':
         return '(FPath %s)' % cnat(m[1])
+    if k == 'namere':
+        return '(FNameRe %s %s)' % (PARTS[m[1]][1], cnat(m[2]))
+    if k == 'pathre':
+        return '(FPathRe %s)' % cnat(m[1])
+    if k == 'run':
+        return '(FRun %s)' % cnat(m[1])
     if k == 'contents':
         return '(FContents %s)' % tm_term(m[1])
     if k == 'dirc':
@@ -943,7 +993,7 @@ def matcher_features(m, f, under=()):
     if not isinstance(m, tuple):
         return
     k = m[0]
-    if k in ('sel', 'prune', 'matches', 'every', 'any', 'num', 'empty', 'dirc', 'contents', 'name', 'path', 'type'):
+    if k in ('sel', 'prune', 'matches', 'every', 'any', 'num', 'empty', 'dirc', 'contents', 'name', 'path', 'type', 'namere', 'pathre', 'run'):
         f.add(k if k != 'matches' else ('matches-full' if m[1] else 'matches'))
     if k == 'dirc' and m[1] is not None:
         f.add('recursive')
@@ -960,6 +1010,12 @@ def matcher_features(m, f, under=()):
             if fm is not None:
                 matcher_features(fm, f, ())
         return
+    if k == 'contents':
+        def opq(t):
+            return t[0] == 'opaque' or (t[0] == 'not' and opq(t[1]))
+        if opq(m[1]):
+            f.add('contents-opaque-text-matcher')
+        return
     nxt = under + (k,) if k in ('sel', 'prune') else (() if k == 'dirc' else under)
     for x in m[1:]:
         if isinstance(x, tuple) and x and isinstance(x[0], str):
@@ -967,13 +1023,17 @@ def matcher_features(m, f, under=()):
 
 
 def pats_used(m, acc):
-    if not isinstance(m, tuple):
+    """acc: dict of sets: 'name' (part, pat), 'path' pat, 'namere' (part, pat), 'pathre' pat, 'opaque' k, 'run' k"""
+    if not isinstance(m, tuple) or not m:
         return
-    if m and m[0] == 'name':
-        acc[0].add((m[1], m[2]))
-    elif m and m[0] == 'path':
-        acc[1].add(m[1])
-    elif m and m[0] == 'matches':
+    k = m[0]
+    if k in ('name', 'namere'):
+        acc[k].add((m[1], m[2]))
+    elif k in ('path', 'pathre', 'run'):
+        acc[k].add(m[1])
+    elif k == 'opaque':
+        acc['opaque'].add(m[1])
+    elif k == 'matches':
         for nm, fm in m[2]:
             pats_used(fm, acc)
     else:
@@ -991,22 +1051,53 @@ def py_name_part(part, s):
     return '' if i == -1 else s[i:]
 
 
-def oracle_tables(m, root_name, base, paths):
-    """answers of the Python library for exactly the (pattern, string) pairs the case can ask"""
-    acc = (set(), set())
+def file_contents_below(base, paths):
+    out = set()
+    for c in [[]] + paths:
+        p = os.path.join(base, *c)
+        if os.path.isfile(p):
+            with open(p, 'r', errors='replace') as f:
+                out.add(f.read())
+    return sorted(out)
+
+
+def oracle_tables(run, m, root_name, base, paths):
+    """answers of the Python libraries / the real text matcher / the real program for exactly the questions the case can ask"""
+    import re
+    import subprocess
+    acc = {'name': set(), 'path': set(), 'namere': set(), 'pathre': set(), 'opaque': set(), 'run': set()}
     pats_used(m, acc)
     names = {root_name} | {c[-1] for c in paths}
-    st, pt = [], []
-    for part, pat in sorted(acc[0]):
+    st, pt, rst, rpt, tt, rt = set(), [], set(), [], [], []
+    for part, pat in sorted(acc['name']):
         for s in sorted({py_name_part(part, n) for n in names}):
-            st.append('(%s, %s, %s)' % (cnat(pat), ctext(s), cbool(fnmatch.fnmatch(s, STR_PATS[pat]))))
-    for pat in sorted(acc[1]):
+            st.add('(%s, %s, %s)' % (cnat(pat), ctext(s), cbool(fnmatch.fnmatch(s, STR_PATS[pat]))))
+    for part, pat in sorted(acc['namere']):
+        for s in sorted({py_name_part(part, n) for n in names}):
+            rst.add('(%s, %s, %s)' % (cnat(pat), ctext(s), cbool(re.compile(RE_STR_PATS[pat]).search(s) is not None)))
+    for pat in sorted(acc['path']):
         for c in [[]] + paths:
             real = pathlib.Path(os.path.join(base, *c))
             pt.append('(%s, %s, %s)' % (cnat(pat), cpath([root_name] + c), cbool(real.match(PATH_PATS[pat]))))
-    # the same (pattern, string) may be produced by two parts: keep one line each
-    st = sorted(set(st))
-    return (clist(st) if st else '(@nil (nat * name * bool))', clist(pt) if pt else '(@nil (nat * path * bool))')
+    for pat in sorted(acc['pathre']):
+        for c in [[]] + paths:
+            real = str(pathlib.Path(os.path.join(base, *c)))
+            rpt.append('(%s, %s, %s)' % (cnat(pat), cpath([root_name] + c), cbool(re.compile(RE_PATH_PATS[pat]).search(real) is not None)))
+    if acc['opaque']:
+        for k in sorted(acc['opaque']):
+            for txt in file_contents_below(base, paths):
+                v = run.text_oracle(k, txt)
+                tt.append('(%s, %s, %s)' % (cnat(k), ctext(txt), 'None' if v is None else '(Some %s)' % cbool(v)))
+    for k in sorted(acc['run']):
+        for c in [[]] + paths:
+            rc = subprocess.call(RUN_PROGS[k][1] + [os.path.join(base, *c)], stdout=subprocess.DEVNULL, stderr=subprocess.DEVNULL)
+            rt.append('(%s, %s, (Some %s))' % (cnat(k), cpath([root_name] + c), cbool(rc == 0)))
+
+    def lst(xs, ty):
+        xs = sorted(xs) if isinstance(xs, set) else xs
+        return clist(xs) if xs else '(@nil (%s))' % ty
+    return ' '.join([lst(st, 'nat * name * bool'), lst(pt, 'nat * path * bool'), lst(rst, 'nat * name * bool'),
+                     lst(rpt, 'nat * path * bool'), lst(tt, 'nat * list N * option bool'), lst(rt, 'nat * path * option bool')])
 
 
 VERDICT = {'PASS': 'VPass', 'FAIL': 'VFail', 'HARD_ERROR': 'VHardError', 'VALIDATION_ERROR': 'VValidationError'}
@@ -1121,8 +1212,8 @@ def collect(ctx, res, rng, n_p, n_trees, per_tree, scratch_name='c15-run'):
                 else:
                     res.prop_failures.append(Failure('property', d, 'verdict other than PASS / FAIL / HARD_ERROR / VALIDATION_ERROR'))
                 continue
-            gs, gp = oracle_tables(m, root_name, base, paths)
-            terms.append('(CM (MCase %s %s %s %s %s %s))' % (ctext(root_name), tree_term, fm_term(m), gs, gp, VERDICT[o['status']]))
+            tabs = oracle_tables(run, m, root_name, base, paths)
+            terms.append('(CM (MCase %s %s %s %s %s))' % (ctext(root_name), tree_term, fm_term(m), tabs, VERDICT[o['status']]))
             f = set()
             matcher_features(m, f)
             d['features'] = sorted(f)
